@@ -97,7 +97,9 @@ func NondetString(name string, maxLen int, alphabet string) string {
 	return string(out)
 }
 
-func NondetStringN(name string, n int, alphabet string) string { return NondetString(name, n, alphabet) }
+func NondetStringN(name string, n int, alphabet string) string {
+	return NondetString(name, n, alphabet)
+}
 
 func Param(name string) int { return rf.Params[name] }
 
@@ -135,7 +137,7 @@ func Assume(c bool) {
 	}
 }
 
-func Cover(label string)         { res.Covers = append(res.Covers, label) }
+func Cover(label string) { res.Covers = append(res.Covers, label) }
 func Region(name string, c bool) {
 	if c {
 		res.Regions = append(res.Regions, name)
